@@ -114,7 +114,7 @@ func run(r *simkit.Run) {
 	// fault enumeration over the I/O points of this workload
 	lo, hi := ref.k0, ref.ioTotal
 	n := hi - lo
-	limit := 90
+	limit := 60
 	if r.Tier == "thorough" {
 		limit = 400
 	}
@@ -231,14 +231,37 @@ func (s *sim) execute() {
 	if err := s.openReal(true); err != nil {
 		panic("storesim: cannot create the store on an empty simulated disk: " + err.Error())
 	}
+	if s.wl.warmup {
+		// Close+Open right after creation: goleveldb replays its journal into a
+		// synced table, so the batch that initialised the store is durable and
+		// the memdb is empty before the workload (and the fault window) starts
+		if err := s.closeReal(); err != nil {
+			panic("storesim: warm-up close: " + err.Error())
+		}
+		if err := s.openReal(false); err != nil {
+			panic("storesim: warm-up open: " + err.Error())
+		}
+	}
 	s.k0 = s.fs.IOCount()
 	s.armed = s.plan.mode != fmNone
 	defer func() {
-		// never leave a store open (its goroutines would outlive the bubble)
+		// never leave a store open (its goroutines would outlive the bubble);
+		// after an injected fault Close itself may block for ever (see guard)
 		if s.real != nil {
-			_ = s.real.Close()
-			ffldb.VerifForget(s.real)
+			db := s.real
 			s.real = nil
+			ffldb.VerifForget(db)
+			if s.plan.mode == fmNone {
+				_ = db.Close()
+				return
+			}
+			done := make(chan struct{})
+			go func() { _ = db.Close(); close(done) }()
+			select {
+			case <-done:
+			case <-time.After(10 * time.Minute):
+				s.r.Probe("store_hung_after_fault_abandoned")
+			}
 		}
 	}()
 	stopped := false
